@@ -1,4 +1,72 @@
-From Dawn Require Import Build.Model.
-Theorem build_total : forall c w l, exists o, build c w l = o.
-Proof. intros; eexists; reflexivity. Qed.
-Print Assumptions build_total.
+(** C01 — Incremental builds are never stale.  Statements only; proofs in Build/Proofs_Fresh.v, Proofs_Stale.v.
+    Model: Build/Model.v.  A world carries, besides project, files and persisted records, a GHOST history that the
+    decision logic never reads: for every target the snapshot of its last recorded successful execution
+    (environment, run ID, the stamp it saw of every dependency). *)
+From Dawn Require Import Build.Model Build.Proofs Build.Proofs_Fresh Build.Proofs_Stale.
+
+(** [current w l] (Proofs_Stale.v): l's last recorded execution ran with l's present environment, its declared outputs
+    exist, it saw every function dependency exactly as that dependency's own last recorded execution left it (same
+    environment and same run ID, i.e. the dependency has not executed since), and every source with its present content. *)
+
+(** After ANY history of edits, builds (full or of sub-targets, failing, killed at any point, dry, always-runs) and
+    collections, a build that is neither dry nor killed and in which every visited target succeeded leaves every target
+    it visited -- the whole dependency closure of the requested one -- current. *)
+Theorem never_stale :
+  forall h c l,
+    let w := run_history h in
+    c_dry c = false -> c_crashed c = false -> link_ok (w_proj w) = true ->
+    let o := build c w l in
+    (forall x v, lookup x (o_vis o) = Some v -> v_res v = ROk) ->
+    forall x v, lookup x (o_vis o) = Some v -> current (o_w o) x.
+Proof. exact Proofs_Stale.never_stale. Qed.
+Print Assumptions never_stale.
+
+(** The ghost history and the persisted records agree in every reachable world: a success record of a function target
+    is exactly the snapshot of its last recorded execution. *)
+Theorem records_tell_the_truth :
+  forall h l r e, let w := run_history h in
+    lookup l (w_recs w) = Some r -> r_data r = DEnv e ->
+    lookup l (w_last w) = Some (mkSnap e (r_run r) (r_deps r)).
+Proof. intros h l r e. exact (Proofs_Stale.history_ginv h l r e). Qed.
+Print Assumptions records_tell_the_truth.
+
+(** Run IDs identify executions: in every reachable world every ID in the ghost history is below the counter, and a
+    recorded execution takes the counter's value and increments it -- so when a dependency executes again it gets an ID
+    that no snapshot holds, and a dependent that compares equal stamps has seen that very execution. *)
+Theorem run_ids_below_counter :
+  forall h l sn, lookup l (w_last (run_history h)) = Some sn -> s_run sn < w_nextrun (run_history h).
+Proof. intros h. exact (Proofs_Stale.history_runs_below h). Qed.
+Print Assumptions run_ids_below_counter.
+
+Theorem executed_run_is_fresh :
+  forall c w l deps srcs gens env k alw vs w' v evs,
+    step_target c w l (Fn deps srcs gens env k alw) (rec_of w l) vs = (w', v, evs, true) -> v_res v = ROk ->
+    lookup l (w_last w') = Some (mkSnap env (w_nextrun w) (map (fun lv => (fst lv, stamp_of (snd lv))) vs)) /\
+    w_nextrun w' = w_nextrun w + 1.
+Proof. exact Proofs_Stale.executed_run_is_fresh. Qed.
+Print Assumptions executed_run_is_fresh.
+
+(** The invariant behind it: in a run that is neither dry nor killed, every successfully visited target's record is
+    fresh -- it names the present stamp of each dependency, matches the target's environment (or the source's content),
+    is not marked for re-run, and the target's outputs exist. *)
+Theorem successful_visits_are_fresh :
+  forall c pr order s,
+    c_dry c = false -> c_crashed c = false -> link_ok pr = true ->
+    finv pr s -> finv pr (fold_left (eval1 c) order s).
+Proof. exact Proofs_Fresh.fold_finv. Qed.
+Print Assumptions successful_visits_are_fresh.
+
+(** NOT YET PROVED as a theorem: incremental_eq_clean (the generated files equal those of a from-scratch build of the
+    same tree).  It is decided on the implementation after every successful build of every history by the harness oracle
+    "C01 stale: ... differs from a from-scratch build". *)
+
+(** non-vacuity, and the scenario that was stale before the fix 33bea66: c depends on a; a's source is edited; a is
+    built on its own; then c is built -- c must execute (run IDs differ although a's environment is unchanged) *)
+Example partial_build_example :
+  let pr := [(1, Fn [] [10] [100] 1 7 false); (3, Fn [1] [] [101] 3 9 false); (10, Src 50)] in
+  let c := mkCfg false false [] false [] [] in
+  let h := [OSetProj pr; OSetFile 50 (Some (CLit 1)); OBuild c 3; OSetFile 50 (Some (CLit 2)); OBuild c 1] in
+  let o := build c (run_history h) 3 in
+  o_ran o = [3] /\ forallb (fun lv => result_ok (v_res (snd lv))) (o_vis o) = true /\
+  link_ok (w_proj (run_history h)) = true.
+Proof. vm_compute. repeat split. Qed.
